@@ -89,7 +89,7 @@ def atom_text(a, rng, tag=None, variants=True):
     h = a.hcount or 0
     s = "["
     if a.isotope is not None:
-        s += str(a.isotope)
+        s += ("0" * rng.choice([1, 2]) if (variants and rng.random() < 0.15) else "") + str(a.isotope)
     s += sym
     if tag:
         s += tag
@@ -103,14 +103,14 @@ def atom_text(a, rng, tag=None, variants=True):
     if c:
         sign = "+" if c > 0 else "-"
         n = abs(c)
-        forms = ["%s%d" % (sign, n)]
+        forms = ["%s%d" % (sign, n), "%s0%d" % (sign, n)]
         if n == 1:
             forms.append(sign)
         if n <= 5:
             forms.append(sign * n)
         s += rng.choice(forms) if variants else forms[0]
     if variants and rng.random() < 0.05:
-        s += ":%d" % rng.randint(0, 99)
+        s += ":%s%d" % (rng.choice(["", "", "0", "00"]), rng.randint(0, 99))
     return s + "]"
 
 
@@ -238,8 +238,8 @@ def spell(mol, rng, label_mode=None, explicit_single=0.05, variants=True,
                 side = ring_side.get(key)
                 if side is None:   # decided once per ring bond, used at both ends
                     side = ring_side[key] = ring_sym_side or rng.choice(["open", "close", "both"])
-                if t == "-" and both_arom:
-                    side = "both"   # a single bond between aromatic atoms must not be read as aromatic
+                if t == "-" and both_arom and ring_sym_side is None and rng.random() < 0.4:
+                    side = "both"   # a single bond between aromatic atoms: '-' on either digit (or both) says so
                 if side == "both" or (side == "open" and not closing) or (side == "close" and closing):
                     text.append(t)
                 return
